@@ -163,7 +163,10 @@ def make_bank(rng, quick):
                                   'pos-punct-char', 'pos-decorated',
                                   'cat-digit-first', 'cat-at-x',
                                   'word-unicode', 'word-keyword',
-                                  'word-percent', 'word-unispace'],
+                                  'word-percent', 'word-unispace',
+                                  'cat-decorated', 'cat-digit-last',
+                                  'word-bracket', 'word-python-literal',
+                                  'word-equals-tag', 'pos-keyword'],
                   root_labels=['TOP', 'ROOT', 'S'])
         if rng.random() < 0.4:
             gen.uproot(rng, bank[-1], 0.3)
